@@ -272,7 +272,7 @@ def run(case):
 # ----------------------------------------------------------------------------- workloads
 
 def gen_case(rng, tier, kind=None, dtype=None):
-    dtype = dtype or rng.choice(gen.DT_ALL)
+    dtype = dtype or (rng.choice(gen.DT_ALL) if rng.random() < 0.92 else rng.choice(gen.DT_EXOTIC))
     maxlen = 12 if tier == "quick" else 50
     isf = np.dtype(dtype).kind == "f"
     v, style = rl.gen_runs(rng, dtype, rng.choice(["close", "nonfinite", "extreme"]) if (isf and rng.random() < 0.45) else ("extreme" if rng.random() < 0.1 else "small"), maxlen)
@@ -421,7 +421,7 @@ def const_case(rng, tier, s, form):
     the case's generator), or -- forms "nonempty", "emptyrun" -- as the number of positions in one look-up (1-d, and 2-d when it factors)"""
     if form in ("nonempty", "emptyrun") and s <= 300000:
         gen.FORCED["used"] += 1        # (this case does not draw its size from the run generator)
-        dtype = rng.choice(gen.DT_ALL)
+        dtype = rng.choice(gen.DT_ALL) if rng.random() < 0.9 else rng.choice(gen.DT_EXOTIC)
         v, _ = rl.gen_runs(rng, dtype, "small", 40 if form == "nonempty" else 400)
         L = len(v)
         idx = np.random.RandomState(rng.randrange(2 ** 32)).randint(-L, L, size=s).tolist()
